@@ -1,6 +1,7 @@
 //! Correspondence harness: runs scenario files against the real anysystem crate and prints observations.
 mod canon;
 mod common;
+mod handoff;
 mod mc;
 mod mcnet;
 mod script_proc;
@@ -14,6 +15,7 @@ fn run_scenario(sc: &Scenario) -> String {
         "STORE" => store::run(sc),
         "MC" => mc::run(sc),
         "SIM" => sim::run(sc),
+        "HANDOFF" => handoff::run(sc),
         c => format!("UNSUPPORTED {}\n", c),
     }
 }
